@@ -153,8 +153,8 @@ theorem initLocals_session (args : List V) (s : State) (ci : Nat) (free : Option
   simp only at hnp hva hnl
   subst hva
   subst hnp
-  unfold initLocals
-  simp only [exec_bind]
+  unfold initLocals fillUndefined setLocal copyLocals
+  simp only [exec_bind, Int.zero_add]
   have hg : exec getS s = (.ok s, s) := rfl
   simp only [hg, exec_fnCell s s.mainFn ci free hfn, hc]
   have h1 : ¬ np > stackSize := by omega
@@ -186,7 +186,7 @@ theorem initLocals_session (args : List V) (s : State) (ci : Nat) (free : Option
     simp only [hnp0, if_false, Bool.false_eq_true]
     by_cases hlt : args.length < np
     · have hlt' : ((args.length : Int) < (np : Int)) := by omega
-      simp only [hlt', if_true, exec_bind]
+      simp only [hlt', if_true, exec_bind, exec_pure]
       rw [exec_copy np hnl args 0 _]
       simp only [exec_pure]
       refine ⟨copyL np F args 0, rfl, by rw [copyL_size, hFsz], ?_, ?_⟩
@@ -207,7 +207,7 @@ theorem initLocals_session (args : List V) (s : State) (ci : Nat) (free : Option
       have hb : ¬ ((decide ((np : Int) - 1 < 0) || decide ((np : Int) - 1 ≥ (np : Int))) = true) := by
         simp; omega
       have hcast : ((np : Int) - 1) = ((np - 1 : Nat) : Int) := by omega
-      simp only [hlt', if_false, hb, exec_bind]
+      simp only [hlt', if_false, hb, exec_bind, exec_pure]
       rw [hcast]
       simp only [Bool.false_eq_true, if_false]
       rw [exec_stackSet (np - 1) _ _ (by omega)]
